@@ -80,16 +80,45 @@ def _bdd_family(ctx, mode, cfg, nq=6, nt=40, segs=4, length=160, nmax=5):
     record_and_validate(ctx, jobs, "TraceBdd", cfg)
 
 
+def sdd_jobs(ctx, mode, n, segments, length, nmax):
+    return [("sdd_%s_%d" % (mode, i),
+             ["record", "sdd", "--mode", mode, "--seed", ctx.seed * 1000 + i, "--segments", segments,
+              "--len", length, "--nmax", nmax]) for i in range(n)]
+
+
+def _sdd_family(ctx, mode, cfg, nq=6, nt=40, segs=5, length=120, nmax=5):
+    if ctx.quick:
+        jobs = sdd_jobs(ctx, mode, nq, segs, length, nmax)
+    else:
+        jobs = sdd_jobs(ctx, mode, nt, segs + 2, length + 60, nmax)
+    record_and_validate(ctx, jobs, "TraceSdd", cfg)
+
+
+def C03(ctx):
+    ctx.assumptions += ["SDD denotations are recomputed by TLC from raw element lists (prime/sub pointers, complement bits)",
+                        "vtrees: right-linear, left-linear, even-split, dtree-derived and random shapes with random leaf labellings, <= 5 variables",
+                        "uncompressed segments are kept short (<= 30 operations): uncompressed random programs blow up in the library itself"]
+    _sdd_family(ctx, "c03", "TraceSdd_C03.cfg", nq=8)
+
+
+def C04(ctx):
+    ctx.assumptions += ["well-formedness is evaluated on truth tables of every prime and sub of every new node (partition, vtree sides, distinct subs, untrimmable)",
+                        "unique-table growth forced by the capacity hook (both SDD tables use BackedRobinhoodTable)"]
+    _sdd_family(ctx, "c04", "TraceSdd_C04.cfg", nq=8)
+
+
 def C05(ctx):
     ctx.assumptions += ["CNF / expression / plan semantics = EvalCnf / EvalExpr of spec/BoolFn.tla evaluated by TLC",
                         "plans derived from DTree::from_cnf are logged as trees: TLC evaluates the plan itself"]
     _bdd_family(ctx, "c05", "TraceBdd_C05.cfg")
+    _sdd_family(ctx, "c05", "TraceSdd_C05.cfg", nq=4, nt=24)
 
 
 def C07(ctx):
     ctx.assumptions += ["weights are dyadic rationals k/8 or small integers: every f64 operation of the code is exact",
                         "RationalSemiring has no public constructor: only naturals built from one/zero/+/* are reachable"]
     _bdd_family(ctx, "c07", "TraceBdd_C07.cfg")
+    _sdd_family(ctx, "c07", "TraceSdd_C07.cfg", nq=4, nt=24)
 
 
 def C08(ctx):
@@ -98,12 +127,15 @@ def C08(ctx):
 
 def C10(ctx):
     _bdd_family(ctx, "c10", "TraceBdd_C10.cfg")
+    _sdd_family(ctx, "c10", "TraceSdd_C10.cfg", nq=4, nt=24)
 
 
 def C11(ctx):
     ctx.assumptions += ["a collision of two different functions under a 32/64-bit prime would be reported as a violation; "
                         "probability < 1e-9 per run for the 64-bit prime, seeds are fixed"]
     _bdd_family(ctx, "c11", "TraceBdd_C11.cfg")
+    _sdd_family(ctx, "c11", "TraceSdd_C11.cfg", nq=3, nt=16)
+    _sdd_family(ctx, "sem", "TraceSdd_C11.cfg", nq=4, nt=24)
 
 
 def C12(ctx):
